@@ -333,6 +333,29 @@ pub fn run(ctx: Arc<Ctx>) {
 			} else {
 				ctx.outcome("work directory is not below the current directory: relative pipeline directory not exercised");
 			}
+			// the same pipeline as a pipeline file opened like any other container (what `convert` and `serve` do); the
+			// reader is first asked for coordinates beyond the grid of their level (a server passes such requests
+			// through), then for everything else: earlier answers must not change later ones
+			{
+				let vpl_path = work.0.join(format!("o{code}_{a}{b}.vpl"));
+				std::fs::write(&vpl_path, &vpl).unwrap();
+				let fcase = json!({"family": f.name, "files": names, "assignment": assign, "vpl": vpl, "opened_as": "pipeline file"});
+				match catch(|| rt.block_on(versatiles_container::get_reader(vpl_path.to_str().unwrap()))) {
+					Ok(Ok(reader)) => {
+						for c in f.coords.iter() {
+							let w = 1u32 << c.0;
+							for (x, y) in [(c.1 + w, c.2), (c.1 + w, c.2.wrapping_sub(1)), (c.1, c.2 + w), (c.1.wrapping_sub(1), c.2 + w), (w, c.2), (c.1, w)] {
+								let _ = catch(|| rt.block_on(reader.get_tile_data(&TileCoord3 { x, y, z: c.0 })));
+							}
+						}
+						check_overlay(&ctx, &rt, &format!("files {names:?} assignment {assign:?} (pipeline file, after lookups beyond the grid)"), &vpl, AnySrc::Reader(reader), 2, &f.coords, &assign, &[0, 0], None, &fcase, if pyramids.len() == 2 { &pyramids } else { &[] });
+						ctx.trace(1);
+					}
+					Ok(Err(e)) => ctx.violation(&format!("overlay over container files cannot be opened as a pipeline file: {}", super::c01::norm_msg(&format!("{e:#}"))), &format!("{vpl}: {e:#}"), fcase),
+					Err(p) => ctx.violation(&format!("opening a pipeline file panics at {}", panic_site(&p)), &format!("{vpl}: {p}"), fcase),
+				}
+				let _ = std::fs::remove_file(&vpl_path);
+			}
 			for n in names {
 				let _ = std::fs::remove_file(work.0.join(n));
 			}
